@@ -500,6 +500,10 @@ func scResources() *vrt.Scenario {
 				{{9000, 9000}, {30001, 30001}},
 				{{9000, 9001}, {9001, 9001}},
 				{{1001, 1001}},
+				// ranges written in descending order (the template field accepts any order): every one of them counts
+				{{30001, 30001}, {9000, 9000}},
+				{{30000, 30001}, {9001, 9002}},
+				{{9001, 9001}, {9000, 9000}, {30000, 30000}},
 			}
 			sum := func(v []float64) (s float64) {
 				for _, x := range v {
@@ -578,7 +582,7 @@ func scResources() *vrt.Scenario {
 			}
 			r.Samples = append(r.Samples, fmt.Sprintf("resources: offer cpus:1 mem:128 ports:[9000-9001] wants cpu=1 mem=128 static=[9000] tcp=1 -> %v",
 				task.Resources(mesos.Resources{resources.NewCPUs(1).Resource, resources.NewMemory(128).Resource, portsResource([2]uint64{9000, 9001})}).Satisfy(&task.Wants{Cpu: 1, Memory: 128, StaticPorts: port.Ranges{{Begin: 9000, End: 9000}}, InboundChannels: []channel.Inbound{tcpChan("t")}})))
-			r.Notes = append(r.Notes, "grid: cpus offered {none,1,2,1+1} x wanted {0,.5,1,1.5,2,2.5}; mem offered {none,128,256} x wanted {0,64,128,129,256,512}; 7 offered port layouts (none, one port, low, high, both in one / two resources, below 9000) x 8 static range lists x 0-3 tcp x 0-1 ipc channels; one-directional oracle (accept => covered)")
+			r.Notes = append(r.Notes, "grid: cpus offered {none,1,2,1+1} x wanted {0,.5,1,1.5,2,2.5}; mem offered {none,128,256} x wanted {0,64,128,129,256,512}; 7 offered port layouts (none, one port, low, high, both in one / two resources, below 9000) x 11 static range lists (three of them in descending order) x 0-3 tcp x 0-1 ipc channels; one-directional oracle (accept => covered)")
 		}}
 }
 
